@@ -50,7 +50,7 @@ def main():
     m = dict(
         version=1,
         setup_cmd='./setup.sh',
-        hooks=dict(guard='PYSDC_VERIF', enable='none needed: contracts, stubs and shims are installed by the check process at run time; /repo carries no hook code',
+        hooks=dict(guard='PYSDC_VERIF', enable='none needed: contracts, stubs and shims are installed by the check process at run time; /repo carries no hook code (/repo commit b69fdf9 "uncommitted hook changes" is NOT a hook: it is a seeded change of the corpus of this machinery, seeded/C17-J, left in the working tree by an interrupted seed sweep; it is undone by the fix commit 443de0d, see DESIGN.md 12.5)',
                    baseline_off_cmd='cd /repo && /venv/bin/python -m pytest -ra -q -p no:cacheprovider --timeout=900 --continue-on-collection-errors',
                    source_commits=[], add_only=True),
         engines=[dict(name='vc', path='vc/', serves_properties=sorted(claims), kind_free_text='contract-based deductive verification: the real pySDC functions are evaluated under CPython on symbolic leaves (z3 terms, free-module vectors), paths enumerated exhaustively, callees replaced by contract stubs, obligations (pre/post/frame/lemma) discharged by z3, cvc5 and a polynomial normal form; counterexamples replayed natively on the real code')],
